@@ -42,7 +42,8 @@ def gen_cases(seed, tier, n):
     out = []
     profs = ["default", "fifo_steps", "fifo_tiny", "loader_mix", "default", "fifo_steps", "fifo_tiny", "loader_mix", "loader_s0", "fifo_steps", "loader_pad"]
     for i in range(n):
-        c = tracegen.gen_case(seed, i, tracegen.PROFILES[profs[i % len(profs)]])
+        # every thirteenth case: ranks with vocabularies of their own, more than 127 symbols in the job
+        c = tracegen.gen_case(seed, i, tracegen.bigvocab("loader_mix") if i % 13 == 6 else tracegen.PROFILES[profs[i % len(profs)]])
         rng = random.Random(seed * 7919 + i)
         c["params"] = {"include_last": rng.random() < 0.5}
         if i % 5 == 4:
